@@ -362,12 +362,41 @@ fn main() {
             (_, r) => run.fail(&format!("bitseq:boundary:ctor:{len}"), &format!("zeros/ones/new at length {len}: {r:?}"), json!({"len": len})),
         }
     }
+    // ---------- (iii) 32-bit boundary band (u32/usize mix-ups, half-word masks) -------------------------
+    let cxm = Ctx { run: &run, band: "mid", lo: 28, hi: 36 };
+    let mut init_m: Vec<M> = vec![];
+    for len in 30..=34usize {
+        init_m.push(vec![false; len]);
+        init_m.push(vec![true; len]);
+        init_m.push((0..len).map(|i| i % 2 == 0).collect());
+        init_m.push((0..len).map(|i| i == len - 1).collect());
+        init_m.push((0..len).map(|i| i == 0).collect());
+    }
+    let (st3, _) = bfs(&run, init_m.clone(), if run.thorough() { 3 } else { 2 }, 3_000_000, |m: &M, _| cxm.succ(m, &app_b));
+    // ---------- (iv) every length 0..=64 at depth 1: all operations once from sparse patterns -------------
+    let cxa = Ctx { run: &run, band: "all-lengths", lo: 0, hi: 65 };
+    let mut init_a: Vec<M> = vec![];
+    for len in 0..=64usize {
+        init_a.push(vec![false; len]);
+        init_a.push(vec![true; len]);
+        init_a.push((0..len).map(|i| i % 3 == 0).collect());
+        for pos in 0..len {
+            init_a.push((0..len).map(|i| i == pos).collect());
+        }
+    }
+    init_a.sort();
+    init_a.dedup();
+    let (st4, _) = bfs(&run, init_a.clone(), 1, 3_000_000, |m: &M, _| cxa.succ(m, &app_small[..7]));
+    check_order(&run, "all-lengths", &init_a.iter().filter(|m| m.len() % 8 <= 1 || m.len() >= 60).cloned().collect::<Vec<_>>());
     if !st1.exhausted {
         run.cap("small band not exhausted");
     }
     let coverage = json!({
-        "states": st1.states + st2.states,
-        "transitions": st1.transitions + st2.transitions,
+        "states": st1.states + st2.states + st3.states + st4.states,
+        "transitions": st1.transitions + st2.transitions + st3.transitions + st4.transitions,
+        "mid_band": {"lengths": "28..=36", "initial_states": init_m.len(), "states": st3.states, "transitions": st3.transitions},
+        "all_lengths_depth1": {"lengths": "0..=64", "initial_states": init_a.len(), "states": st4.states, "transitions": st4.transitions,
+                               "patterns": "zeros, ones, every third bit, every single-bit position"},
         "traces_validated_against_impl": run.get("op_calls") + run.get("observations") + run.get("constructor_calls") + run.get("cmp_pairs"),
         "small_band": {"lengths": "0..=6", "states": st1.states, "transitions": st1.transitions, "max_depth": st1.max_depth,
                         "exhausted": st1.exhausted, "note": "reachable graph is finite (127 values) and was exhausted"},
